@@ -395,7 +395,7 @@ class Gen:
                 self.replace(self.plates, v, op['out'])
         return o
 
-    def fill(self, target=None, rel=None):
+    def fill(self, target=None, rel=None, sig=2):
         """fill_to: target quantity = rel * current (rel > 1 feasible, < 1 refused)"""
         rng = self.rng
         solvent = self.sub(kind=('Liquid', 'Solid'))
@@ -411,7 +411,7 @@ class Gen:
             v = rng.choice(self.containers)
             cur = self.measure(self.impl.env[v], b)
             base = cur * rel if cur > 0 else {'L': 0.002, 'g': 2.0, 'mol': 0.05}[b]
-            op = {'op': 'fill', 't': {'c': v}, 'solvent': solvent['id'], 'q': pick_qty(rng, base, b, sig=2), 'out': self.fresh()}
+            op = {'op': 'fill', 't': {'c': v}, 'solvent': solvent['id'], 'q': pick_qty(rng, base, b, sig=sig), 'out': self.fresh()}
             o = self.emit(op, 'fill:' + b)
             if o['ok']:
                 self.replace(self.containers, v, op['out'])
